@@ -21,7 +21,13 @@ type vestModel struct {
 }
 
 func rewardVariant(k int64) sdk.Coins {
-	switch kernel.Mod(k, 8) {
+	switch kernel.Mod(k, 11) {
+	case 8:
+		return sdk.Coins{sdk.Coin{Denom: "1x", Amount: sdk.NewInt(5)}, sdk.NewCoin(node.Denom, sdk.NewInt(2))} // not a valid bank denomination
+	case 9:
+		return sdk.Coins{sdk.NewCoin(node.Denom, sdk.NewInt(2)), sdk.Coin{Denom: "a b", Amount: sdk.NewInt(5)}}
+	case 10:
+		return sdk.Coins{sdk.Coin{Denom: "x", Amount: sdk.NewInt(1)}} // too short for the bank module
 	case 0:
 		return sdk.Coins{sdk.NewCoin(node.Denom, sdk.NewInt(1000))}
 	case 1:
